@@ -289,6 +289,18 @@ class ExternalVariableCollector(NodeVisitor):
             self.assigned.add(node.name)
         self.generic_visit(node)
 
+    def _visit_pattern(self, node):
+        # The names captured by the patterns of a match statement
+        name = getattr(node, "name", None) or getattr(node, "rest", None)
+        if name is not None:
+            self.provenance.setdefault(name, "body")
+            self.assigned.add(name)
+        self.generic_visit(node)
+
+    visit_MatchAs = _visit_pattern
+    visit_MatchStar = _visit_pattern
+    visit_MatchMapping = _visit_pattern
+
     def visit_Import(self, node):
         self.visit_ImportFrom(node)
 
@@ -926,6 +938,66 @@ class PteraTransformer(NodeTransformer):
             ),
             node,
         )
+
+    def visit_Match(self, node):
+        """Rewrite a match statement: the names captured by the pattern of a
+        case are reported when the pattern has matched (before its guard)."""
+
+        def captured(pattern):
+            names = []
+            for sub in ast.walk(pattern):
+                name = getattr(sub, "name", None) or getattr(sub, "rest", None)
+                if isinstance(name, str) and name not in names:
+                    names.append(name)
+            return names
+
+        node.subject = self.visit(node.subject)
+        for case in node.cases:
+            targets = [
+                ast.copy_location(ast.Name(id=name, ctx=ast.Store()), case.pattern)
+                for name in captured(case.pattern)
+            ]
+            if case.guard is None:
+                new_body = []
+                for target in targets:
+                    new_body.extend(self.generate_interactions(target))
+                case.body = new_body + self.visit_body(case.body)
+            else:
+                # The names are bound even if the guard then fails
+                reports = [
+                    self.make_interaction(
+                        target,
+                        None,
+                        ast.copy_location(
+                            ast.Name(id=target.id, ctx=ast.Load()), target
+                        ),
+                        orig=case.pattern,
+                        expression=True,
+                    )
+                    for target in targets
+                ]
+                guard = self.visit(case.guard)
+                if reports:
+                    guard = ast.copy_location(
+                        ast.BoolOp(
+                            op=ast.And(),
+                            values=[
+                                ast.Subscript(
+                                    value=ast.Tuple(
+                                        elts=[*reports, ast.Constant(value=True)],
+                                        ctx=ast.Load(),
+                                    ),
+                                    slice=ast.Constant(value=-1),
+                                    ctx=ast.Load(),
+                                ),
+                                guard,
+                            ],
+                        ),
+                        case.guard,
+                    )
+                case.guard = guard
+                case.body = self.visit_body(case.body)
+        return node
 
     def visit_ExceptHandler(self, node):
         if node.name is None:
